@@ -23,7 +23,9 @@ ToSet(s) == {s[i] : i \in 1..Len(s)}
 \* ---- logged (JSON) values -> specification values
 LMsg(m)  == [d |-> m.d, id |-> m.id, gov |-> m.gov, chain |-> m.chain, tx |-> m.tx, empty |-> m.empty]
 LInj(v)  == [d |-> v.d, id |-> v.id, setIdx |-> v.setIdx, chain |-> v.chain]
-LObs(o)  == [d |-> o.d, claimed |-> o.claimed, signer |-> o.signer, over |-> o.over]
+\* an observation whose hash field is not the 32-byte digest itself (bytes in front of it): nothing can be recovered from it
+BadHash(o) == "shape" \in DOMAIN o /\ o.shape \in {"prehash", "prehash2"}
+LObs(o)  == [d |-> o.d, claimed |-> o.claimed, signer |-> IF BadHash(o) THEN "ERR" ELSE o.signer, over |-> o.over]
 LSet(S)  == [idx |-> S.idx, keys |-> S.keys]
 LSig(s)  == [idx |-> s.idx, signer |-> s.signer]
 LSigs(q) == [i \in 1..Len(q) |-> LSig(q[i])]
